@@ -78,11 +78,34 @@ func showEventID(id sse.EventID) string {
 	return hxs(id.String())
 }
 
+// shareTopics: callers cut their topic lists out of one array (all[:1], all[:2], …): a Put's list that is a prefix of the
+// history's longest list so far is handed over as a slice of that list's backing array
+func shareTopics(ops []replayOp) {
+	var master []string
+	for i := range ops {
+		t := ops[i].topics
+		if ops[i].kind != 'P' && ops[i].kind != 'N' || len(t) == 0 {
+			continue
+		}
+		isPrefix := len(t) <= len(master)
+		for k := 0; isPrefix && k < len(t); k++ {
+			isPrefix = t[k] == master[k]
+		}
+		switch {
+		case isPrefix:
+			ops[i].topics = master[:len(t)]
+		case len(t) > len(master):
+			master = t
+		}
+	}
+}
+
 func parseReplayOps(s string) ([]replayOp, bool) {
 	if s == "-" {
 		return nil, true
 	}
 	var ops []replayOp
+	defer func() { shareTopics(ops) }()
 	for _, o := range strings.Split(s, ";") {
 		f := strings.Split(o, ":")
 		switch {
